@@ -59,6 +59,10 @@ def draw(rng, name, cap):
                      useful_life_at_arrival_distribution_c_1=[_r(rng, -1, 1) for _ in range(m - 1)],
                      variable_order_cost=_r(rng, 0, 3), fixed_order_cost=_r(rng, 0, 12), shortage_cost=_r(rng, 0, 25),
                      wastage_cost=_r(rng, 0, 8), holding_cost=_r(rng, 0, 3))
+            if m > 1 and rng.random() < 0.12:
+                # extreme (still valid) logit coefficients: the split is numerically a point mass
+                p["useful_life_at_arrival_distribution_c_0"] = [float(rng.choice([-800.0, -50.0, 50.0, 800.0])) for _ in range(m - 1)]
+                p["useful_life_at_arrival_distribution_c_1"] = [float(rng.choice([-300.0, -30.0, 0.0, 30.0, 300.0])) for _ in range(m - 1)]
         S, A, E = sizes(name, p)
         if S * A * E <= cap and S <= 6000:
             return p
